@@ -83,6 +83,8 @@ pub struct PDev {
     pub rx: VecDeque<Vec<u8>>,
     pub tx: Vec<Vec<u8>>,
     pub calls: usize,
+    /// None = unlimited; Some(n) = at most n more successful `transmit()` calls (back-pressure)
+    pub tx_budget: Option<usize>,
 }
 pub struct PRx(Vec<u8>);
 pub struct PTx<'a>(&'a mut Vec<Vec<u8>>);
@@ -118,6 +120,11 @@ impl Device for PDev {
     }
     fn transmit(&mut self, _t: Instant) -> Option<PTx<'_>> {
         self.tick();
+        match self.tx_budget {
+            Some(0) => return None,
+            Some(ref mut n) => *n -= 1,
+            None => {}
+        }
         Some(PTx(&mut self.tx))
     }
     fn capabilities(&self) -> DeviceCapabilities {
@@ -211,7 +218,7 @@ impl Rig {
         let medium = cfg.medium;
         let checksum = caps_of(cfg.caps);
         let ck = txck_of(&checksum);
-        let mut dev = PDev { medium, mtu: cfg.dev_mtu(), checksum, rx: VecDeque::new(), tx: vec![], calls: 0 };
+        let mut dev = PDev { medium, mtu: cfg.dev_mtu(), checksum, rx: VecDeque::new(), tx: vec![], calls: 0, tx_budget: None };
         let hw = match medium {
             Medium::Ethernet => HardwareAddress::Ethernet(EthernetAddress(IFACE_MAC)),
             Medium::Ip => HardwareAddress::Ip,
